@@ -169,6 +169,9 @@ func TestC15(t *testing.T) {
 	c.Check(t, func(rt *rapid.T) {
 		cfg, nm, vc, _ := defaultXCfg(rt, avoidFor(avoidAll, []string{"lua"}))
 		cfg.PostProgram = nil
+		// lists of tens of thousands of elements cost the interpreted dissector and the recording
+		// stub seconds and gigabytes; they are left to the codec checks
+		cfg.NoHuge = true
 		if rapid.IntRange(0, 4).Draw(rt, "inline_variant") == 0 {
 			// the same inline object name with another layout in a second packet
 			cfg.PostProgram = func(p *dsl.Program) { dsl.ShareInlineVariant(rt, p) }
